@@ -1359,6 +1359,20 @@ Inductive outcome :=
 | OUnsup                                      (* model only: outside the modelled fragment / out of fuel *)
 | OGlobals (after final : list (str * obs)).  (* the file's globals right after it ran, and at the end of the run *)
 
+(* the statements of a file one after the other; when one raises, what the earlier ones did to shared objects
+   stays done (the state before the failing statement is kept) *)
+Fixpoint exec_top (fuel : nat) (ss : list stmt) (st : state) : option errkind * bool * state :=
+  match ss with
+  | [] => (None, false, st)
+  | s0 :: r =>
+      match exec_stmt fuel s0 st with
+      | Ok (RNone, st1) => exec_top fuel r st1
+      | Ok (_, st1) => (None, false, st1)
+      | Err k => (Some k, false, st)
+      | OutOfFuel => (None, true, st)
+      end
+  end.
+
 (* interpretAll for each BUILD file in turn, on one interpreter *)
 Fixpoint run_builds (fuel : nat) (builds : list prog) (st : state) : list (option nat * outcome) * state :=
   match builds with
@@ -1366,18 +1380,16 @@ Fixpoint run_builds (fuel : nat) (builds : list prog) (st : state) : list (optio
   | p :: r =>
       let idx := length (fscopes st) in
       let st1 := set_locals [] (set_cur idx (set_fscopes (fscopes st ++ [[]]) st)) in
-      match exec_block fuel p st1 with
-      | Ok (_, st2) =>
+      match exec_top fuel p st1 with
+      | (None, false, st2) =>
           let after := render_env st2 (nth idx (fscopes st2) []) in
           let '(rest, st3) := run_builds fuel r st2 in
           ((Some idx, OGlobals after []) :: rest, st3)
-      | Err EType =>
-          (* an error abandons the file; what it already did to shared objects stays done, but the model does
-             not track the partial state: later files of such a run are only compared when they do not fail *)
-          let '(rest, st3) := run_builds fuel r st in
+      | (Some EType, _, st2) =>
+          let '(rest, st3) := run_builds fuel r (set_locals [] st2) in
           ((None, OErr) :: rest, st3)
-      | _ =>
-          let '(rest, st3) := run_builds fuel r st in
+      | (_, _, st2) =>
+          let '(rest, st3) := run_builds fuel r (set_locals [] st2) in
           ((None, OUnsup) :: rest, st3)
       end
   end.
